@@ -184,6 +184,9 @@ SCEN(s_rem3_rem3, P_min16, REM, 3, REM, 3)
 SCEN(l_get_ins, P_leaf, GET, 0x0102030405060708ULL, INS, 0x0102030405060709ULL)
 SCEN(l_get_rem, P_leaf, GET, 0x0102030405060708ULL, REM, 0x0102030405060708ULL)
 SCEN(l_ins_ins_split, P_leaf, INS, 0x01020304FF060708ULL, INS, 0x0102030405060709ULL)
+SCEN(l_rem_ins, P_leaf, REM, 0x0102030405060708ULL, INS, 0x0102030405060709ULL)     // removal of the root leaf while an insert splits it
+SCEN(l_rem_rem, P_leaf, REM, 0x0102030405060708ULL, REM, 0x0102030405060708ULL)     // two removals of the only key
+SCEN(l_ins_rem, P_leaf, INS, 0x0102030405060709ULL, REM, 0x0102030405060708ULL)     // split of the root leaf while it is removed
 // prefix split above a reader / two-child node
 SCEN(p_get_split, P_two, GET, 0x20, INS, 0x0100000000000000ULL)
 SCEN(p_rem_split, P_two, REM, 0x10, INS, 0x0000000000010000ULL)
